@@ -3,7 +3,7 @@
 
   Model: Kevo.Model.ConcStorage — unboundedly many client threads running arbitrary programs of put / get / delete
   against storage.Manager: RW lock `mu`, writer micro-steps (lock; getWAL; Append = status check, buffer, maybeSync
-  status check; memtable insert = linearization point; scheduleFlush; unlock) with the ErrWALRotating retry, reader
+  Closed check; memtable insert = linearization point; scheduleFlush; unlock) with the ErrWALRotating retry, reader
   (rlock; lookup = linearization point; runlock), the flush goroutine's rotation (SetRotating; new log + pointer swap;
   close) and its store micro-steps (rotate / flush + publish a table under mu / truncate the list), ghost call /
   linearization / return trace. The store layer is a parameter (`Store`) whose axioms are proved for the abstract
@@ -50,40 +50,36 @@ theorem success_in_log (S : Store) (cfg : Cfg) (sched : List Act) (s : St S) (h 
     (i : Nat) (hr : Ev.ret i COut.ok ∈ hist s) : i ∈ allRecs s :=
   Kevo.ConcStorage.success_in_log S cfg sched s h i hr
 
-/-- (3) full statement, NOT a theorem (D19): a write that returned an error took no effect, neither in memory
-    (linearized with output err, which the specification maps to "state unchanged") nor in the log. -/
-def error_no_effect_statement (S : Store) (cfg : Cfg) : Prop :=
-  Kevo.ConcStorage.error_no_effect_statement S cfg
-
-/-- (3a) it holds on every run in which no append observed `Rotating` after its record had been buffered
-    (ghost counter `late` = 0). -/
-theorem error_no_effect_partial (S : Store) (cfg : Cfg) (sched : List Act) (s : St S) (h : reach S cfg sched = some s)
-    (hl : s.late = 0) (i : Nat) (hr : Ev.ret i COut.err ∈ hist s) :
+/-- (3) a write that returned an error took no effect: neither in memory (it is linearized with output err, which the
+    specification maps to "state unchanged") nor in the log (no record of it in any log file). FULL strength since the
+    repair f92d9b5; before it (D19) syncLocked refused a log that had started rotating after the record was buffered. -/
+theorem error_no_effect (S : Store) (cfg : Cfg) (sched : List Act) (s : St S) (h : reach S cfg sched = some s)
+    (i : Nat) (hr : Ev.ret i COut.err ∈ hist s) :
     (∃ op, (i, op, COut.err) ∈ linlog s.tr) ∧ i ∉ allRecs s :=
-  Kevo.ConcStorage.error_no_effect_partial S cfg sched s h hl i hr
+  Kevo.ConcStorage.error_no_effect S cfg sched s h i hr
 
-/-- (3b) under the same hypothesis an acknowledged write is in the log exactly once. -/
-theorem log_once_partial (S : Store) (cfg : Cfg) (sched : List Act) (s : St S) (h : reach S cfg sched = some s)
-    (hl : s.late = 0) (i : Nat) (hr : Ev.ret i COut.ok ∈ hist s) : (allRecs s).count i = 1 :=
-  Kevo.ConcStorage.log_once_partial S cfg sched s h hl i hr
+/-- (3a) an acknowledged write is in the log exactly once. -/
+theorem log_once (S : Store) (cfg : Cfg) (sched : List Act) (s : St S) (h : reach S cfg sched = some s)
+    (i : Nat) (hr : Ev.ret i COut.ok ∈ hist s) : (allRecs s).count i = 1 :=
+  Kevo.ConcStorage.log_once S cfg sched s h i hr
 
-/-- (3c) the hypothesis is discharged when the log is not synced at every append (SyncNone / SyncBatch below the
-    threshold): then syncLocked is not called inside Append and the window does not exist. -/
-theorem no_late_without_sync (S : Store) (cfg : Cfg) (sched : List Act) (s : St S) (h : reach S cfg sched = some s)
-    (hc : cfg.syncImmediate = false) : s.late = 0 :=
-  Kevo.ConcStorage.no_late_without_sync S cfg sched s h hc
+/-- (3b) the reason: an append never fails after its record was buffered — the only refusal left in syncLocked is a
+    CLOSED log, and a log is closed (and the pointer swapped) only while nobody is inside Append on it (Close and
+    GetNextSequence need the log's mutex; the appending thread is the holder of `mu`). -/
+theorem no_late (S : Store) (cfg : Cfg) (sched : List Act) (s : St S) (h : reach S cfg sched = some s) : s.late = 0 :=
+  Kevo.ConcStorage.no_late S cfg sched s h
 
-/-- (3d) D19, retries exhausted: put; lock; getWAL; status Active; record buffered; SetRotating; syncLocked sees
-    Rotating → ErrWALRotating; two more attempts see Rotating; the call returns an error — and its record is in log
-    file 0 (it is replayed after a restart). -/
-theorem error_no_effect_witness : ¬ error_no_effect_statement mapStore { syncImmediate := true } :=
-  Kevo.ConcStorage.error_no_effect_witness
+/-- (3c) the former D19 schedule (record buffered, then SetRotating, then the sync) now ends with success and exactly
+    one record. -/
+theorem rotation_inside_append_ok : ∃ sched s, reach mapStore { syncImmediate := true } sched = some s ∧
+    Ev.ret 0 COut.ok ∈ hist s ∧ (allRecs s).count 0 = 1 ∧ s.late = 0 :=
+  Kevo.ConcStorage.rotation_inside_append_ok
 
-/-- (3e) D19, retry succeeds: same start, the rotation completes before the retry, which appends the record again
-    to the new log: the acknowledged write is in the log twice. -/
-theorem duplicate_record_witness : ∃ sched s, reach mapStore { syncImmediate := true } sched = some s ∧
-    Ev.ret 0 COut.ok ∈ hist s ∧ (allRecs s).count 0 = 2 :=
-  Kevo.ConcStorage.duplicate_record_witness
+/-- (3d) errors still exist (so `error_no_effect` is not vacuous): three attempts that all find the log Rotating at the
+    entry of Append return an error, and the log stays empty. -/
+theorem error_reachable_witness : ∃ sched s, reach mapStore { syncImmediate := true } sched = some s ∧
+    Ev.ret 0 COut.err ∈ hist s ∧ allRecs s = [] :=
+  Kevo.ConcStorage.error_reachable_witness
 
 /-- (4) the lock does its job: a thread inside the writer's critical section excludes every other writer and reader. -/
 theorem mutual_exclusion (S : Store) (cfg : Cfg) (sched : List Act) (s : St S) (h : reach S cfg sched = some s)
